@@ -28,6 +28,35 @@
     if (p == verif_pool_##T) verif_pool_used_##T = false;                                                   \
     else if (p) ::operator delete(p);                                                                       \
   }
+// Variant with a VIRTUAL PREFIX, for a LOCAL vector of the code under test that is only appended to and asked for its
+// size (never read): the harness arms the model (verif_vec_prefix_armed_T = true, verif_vec_prefix_T = K) right before
+// the call; the first default-constructed std::vector<T> then behaves as if K elements had already been pushed:
+// start = pool - K (never dereferenced), finish = pool, capacity = CAP more elements.  Lets a harness state "any number
+// of entries already exist" without running the code that created them.  A read of a prefix element is an
+// out-of-bounds access and is reported; the pointer `pool - K` is formed but never used for an access (the native
+// replay therefore runs without -fsanitize=pointer-overflow).
+#define VERIF_VEC_PREFIX_MODEL(T, CAP)                                                                      \
+  T verif_pool_##T[CAP]; bool verif_pool_used_##T = false; bool verif_vec_prefix_armed_##T = false;         \
+  unsigned long verif_vec_prefix_##T = 0;                                                                   \
+  template <>                                                                                               \
+  inline std::_Vector_base<T, std::allocator<T>>::_Vector_impl_data::_Vector_impl_data() noexcept {         \
+    if (verif_vec_prefix_armed_##T) {                                                                       \
+      verif_vec_prefix_armed_##T = false; verif_pool_used_##T = true;                                       \
+      _M_start = verif_pool_##T - verif_vec_prefix_##T; _M_finish = verif_pool_##T;                         \
+      _M_end_of_storage = verif_pool_##T + (CAP);                                                           \
+    } else {                                                                                                \
+      _M_start = nullptr; _M_finish = nullptr; _M_end_of_storage = nullptr;                                 \
+    }                                                                                                       \
+  }                                                                                                         \
+  template <> template <>                                                                                   \
+  inline void std::vector<T>::_M_realloc_insert<T>(iterator pos, T &&x) {                                   \
+    verif_assert(0, "vector model: the capacity of the pool suffices");                                   \
+  }                                                                                                         \
+  template <>                                                                                               \
+  inline void std::_Vector_base<T, std::allocator<T>>::_M_deallocate(T *p, size_t n) {                      \
+    if (verif_pool_used_##T && p == verif_pool_##T - verif_vec_prefix_##T) verif_pool_used_##T = false;     \
+    else if (p) ::operator delete(p);                                                                       \
+  }
 // the same model for push_back(T&&) / emplace_back(T)
 #define VERIF_VEC_GROW_MODEL_RV(T, CAP)                                                                     \
   T verif_pool_##T[CAP]; bool verif_pool_used_##T = false;                                                  \
